@@ -205,7 +205,7 @@ def matchInstancesBeforeFix {G P : Type} (oks : G → P → Option R) (score : P
   | [], _ :: _ => none
   | _, _ => some (matchInstances oks score thr gts prs)
 
-/-- `match_instances` **as it is on HEAD** for a prediction frame that may also hold user `Instance`s
+/-- **Historical (regression record only; F-C16d fixed by e83a3ca).**  `match_instances` before the fix for a prediction frame that may also hold user `Instance`s
 (`score p = none`): `scores_pr` is built from the instances that have a `.score` only, but the
 resulting `argsort` indices are used on the *unfiltered* list — the loop visits
 `frame_pr[idx]` for `idx` in the score order of the first `k` positions, `k` = number of scored
@@ -216,7 +216,7 @@ def matchInstancesMixed {G P : Type} (oks : G → P → Option R) (score : P →
   let order := sortDesc (fun i => fs.getD i thr) (List.range fs.length)
   matchLoop oks thr (order.filterMap (fun i => prs[i]?)) gts
 
-/-- the repair (fixes/C16-mixed-prediction-frame.patch): user instances in a prediction frame are ignored -/
+/-- HEAD (e83a3ca): instances without a score in a prediction frame are ignored -/
 def matchInstancesMixedFixed {G P : Type} (oks : G → P → Option R) (score : P → Option R) (thr : R)
     (gts : List G) (prs : List P) : List (G × P × R) × List G :=
   matchInstances oks (fun p => (score p).getD thr) thr gts (prs.filter (fun p => (score p).isSome))
